@@ -1,4 +1,5 @@
 import DoraModel.Gc.Header
+import DoraModel.Gc.HeapLemmas
 import Std.Tactic.BVDecide
 /-!
 # C03 — Garbage collection is invisible to programs and reclaims garbage
@@ -359,5 +360,92 @@ example : tryMarkLoop 0xfffffffe00001238#64 [(0xfffffffc00001238#64, false), (0x
     = { claimed := true, word := 0xfffffffd00001238#64, attempts := 3 } := by decide
 
 end HeaderWord
+
+section CollectionValidator
+open DoraModel.Gc.Heap
+
+/-!
+Section `CollectionValidator`: sentence "No reachable object is lost, moved without every reference
+(stack slots, interior references, globals, handles held by native code, waiting-thread tables,
+old-to-young pointers) being updated, or corrupted". The heap-dump hook writes the reachable heap
+graph (roots in `iterate_strong_roots` order — stack slots, handles, globals, wait lists; interior
+slots as base + offset) before and after each collection; `checkCollection` (model
+`DoraModel/Gc/Heap.lean`, run natively by `drv_c03 dump` on every dumped collection) accepts the pair
+only if a verified renaming of addresses exists. These theorems say what acceptance means.
+-/
+
+/-- the statement "`R` is an isomorphism between the part of `pre` reachable from its roots and the
+part of `post` reachable from its roots": a partial injection that is total on reachable objects in
+both directions, maps reachable to reachable, relates only existing object records that agree on
+shape, size and payload hash and whose reference fields correspond in order (null to null), and
+relates the root slots pairwise (interior slots with the same offset). -/
+def IsoOnReachable (pre post : Heap) (R : Nat → Nat → Prop) : Prop :=
+  (∀ a b b', R a b → R a b' → b = b') ∧
+  (∀ a a' b, R a b → R a' b → a = a') ∧
+  (∀ a, Reach pre a → ∃ b, R a b ∧ Reach post b) ∧
+  (∀ b, Reach post b → ∃ a, R a b ∧ Reach pre a) ∧
+  (∀ a b, R a b → ∃ oa ob, pre.find a = some oa ∧ post.find b = some ob ∧ ObjRel R oa ob) ∧
+  Forall2 (RootRel R) pre.roots post.roots
+
+/-- The verification step is sound for ANY candidate renaming `φ` (however it was found): if
+`verifyMap` accepts, `φ` read as a relation is an isomorphism of the reachable parts. Closure
+argument: the roots are in the domain of `φ` and the domain is closed under reference fields, so
+everything reachable is in the domain (`Sim.forward`); the same for the converse relation. -/
+theorem verified_renaming_is_isomorphism (pre post : Heap) (φ : List (Nat × Nat))
+    (h : verifyMap pre post φ = true) : IsoOnReachable pre post (RelOf φ) := by
+  have s := verifyMap_sim pre post φ h
+  refine ⟨relOf_functional φ, verifyMap_injective pre post φ h, ?_, ?_, s.objs, s.roots⟩
+  · intro a ha; exact s.forward ha
+  · intro b hb
+    obtain ⟨a, hab, ha⟩ := s.flip.forward hb
+    exact ⟨a, hab, ha⟩
+
+example :
+    let pre : Heap := { roots := [⟨16, 0⟩, ⟨0, 0⟩, ⟨32, 8⟩],
+                        objs := [⟨16, 7, 24, 99, [32, 0]⟩, ⟨32, 9, 16, 5, [16]⟩] }
+    let post : Heap := { roots := [⟨400, 0⟩, ⟨0, 0⟩, ⟨200, 8⟩],
+                         objs := [⟨400, 7, 24, 99, [200, 0]⟩, ⟨200, 9, 16, 5, [400]⟩] }
+    verifyMap pre post [(16, 400), (32, 200)] = true := by decide
+
+/-- `validator_sound`: a collection accepted by the validator preserved the reachable heap: there is a
+bijection between the objects reachable before and those reachable after that preserves shape, size,
+payload and every reference edge, and maps root slots to root slots (interior ones with their
+offset). -/
+theorem validator_sound (pre post : Heap) (h : checkCollection pre post = .ok ()) :
+    ∃ R : Nat → Nat → Prop, IsoOnReachable pre post R := by
+  refine ⟨RelOf (buildCandidate pre post), verified_renaming_is_isomorphism pre post _ ?_⟩
+  unfold checkCollection at h
+  simp only at h
+  split at h
+  · assumption
+  · cases h
+
+/-- "No reachable object is lost … or corrupted", spelled out for one object: every object reachable
+before an accepted collection has a record after it, reachable again, with the same shape, size and
+payload hash and the same number of reference fields. -/
+theorem reachable_object_survives (pre post : Heap) (h : checkCollection pre post = .ok ())
+    (a : Nat) (ha : Reach pre a) :
+    ∃ oa b ob, pre.find a = some oa ∧ post.find b = some ob ∧ Reach post b ∧
+      oa.shape = ob.shape ∧ oa.size = ob.size ∧ oa.hash = ob.hash ∧ oa.refs.length = ob.refs.length := by
+  obtain ⟨R, _, _, hfw, _, hobj, _⟩ := validator_sound pre post h
+  obtain ⟨b, hab, hb⟩ := hfw a ha
+  obtain ⟨oa, ob, h1, h2, hs, hz, hh, hr⟩ := hobj a b hab
+  refine ⟨oa, b, ob, h1, h2, hb, hs, hz, hh, ?_⟩
+  clear h1 h2 hs hz hh
+  induction hr with
+  | nil => rfl
+  | cons _ _ ih => simp [ih]
+
+/-- nothing new becomes reachable either: every object reachable after an accepted collection is the
+image of an object reachable before it (the collector did not resurrect or invent references). -/
+theorem nothing_new_reachable (pre post : Heap) (h : checkCollection pre post = .ok ())
+    (b : Nat) (hb : Reach post b) :
+    ∃ a oa ob, Reach pre a ∧ pre.find a = some oa ∧ post.find b = some ob ∧ oa.shape = ob.shape ∧ oa.hash = ob.hash := by
+  obtain ⟨R, _, _, _, hbw, hobj, _⟩ := validator_sound pre post h
+  obtain ⟨a, hab, ha⟩ := hbw b hb
+  obtain ⟨oa, ob, h1, h2, hs, _, hh, _⟩ := hobj a b hab
+  exact ⟨a, oa, ob, ha, h1, h2, hs, hh⟩
+
+end CollectionValidator
 
 end DoraModel.C03
